@@ -11,8 +11,8 @@ use crate::term;
 
 pub struct C05;
 
-const LEFT_FORMATS: &[&str] = &["{nm:^4}⋮", "{nm:>6}|", "{nm:<3} ", "{nm}:", "[{nm:^5}]", "{nm:>4}{np:>5} ", "{nm:_>7}·", "L{nm:4}", "│", "{nm:^1}", "1{nm:>3}2"];
-const RIGHT_FORMATS: &[&str] = &["{np:^4}│", "{np:>6}|", "{np:<3} ", "{np}:", "{np:^7}‖ ", "{nm:^4}/{np:^4} ", "R{np:>2}>", "│", "{np:^1}"];
+const LEFT_FORMATS: &[&str] = &["{nm:^4}⋮", "{nm:>6}|", "{nm:<3} ", "{nm}:", "[{nm:^5}]", "{nm:>4}{np:>5} ", "{nm:_>7}·", "L{nm:4}", "│", "{nm:^1}", "1{nm:>3}2", "{nm:>5.2}|", "{nm:.1}:", "{nm:^6.3}⋮"];
+const RIGHT_FORMATS: &[&str] = &["{np:^4}│", "{np:>6}|", "{np:<3} ", "{np}:", "{np:^7}‖ ", "{nm:^4}/{np:^4} ", "R{np:>2}>", "│", "{np:^1}", "{np:>5.2}|", "{np:.1}:", "{np:^6.3}│"];
 
 fn gen(t: &mut Tape, tier: Tier) -> (DiffCase, Cfg, bool) {
     let mut o = GenOpts::default_full();
@@ -268,7 +268,7 @@ impl Prop for C05 {
         }
     }
     fn rule(&self) -> String {
-        "cases = two-way multi-file multi-hunk git diffs (starts 0, 1, 9/10, 99/100, ..., > 10^6; omitted counts; zero-length sides; sub-hunks of 0-4 removed x 0-4 added lines, paired/unpaired per distance threshold; long lines that wrap in side-by-side) x tagged option set with line numbers in the unified or side-by-side view and number formats from a grammar ({nm}/{np} with fill/alignment/width, both placeholders in one field, literals incl. digits). Oracle: reference counter (old/new start from the hunk header; '-' advances old, '+' new, ' ' both); the integers found in the gutter cells painted with the number styles must equal, row by row (unified) or as per-side sequences with each numbered row starting its own line (side-by-side), what the counter gives for the generated formats; the hunk-header row shows the new-file start and the section's path when the style asks for them. Non-trivial = >=2 hunks, a sub-hunk with unequal numbers of removed/added lines, and for side-by-side >=1 continuation row; distinct by hash of (input, argv).".to_string()
+        "cases = two-way multi-file multi-hunk git diffs (starts 0, 1, 9/10, 99/100, ..., > 10^6; omitted counts; zero-length sides; sub-hunks of 0-4 removed x 0-4 added lines, paired/unpaired per distance threshold; long lines that wrap in side-by-side) x tagged option set with line numbers in the unified or side-by-side view and number formats from a grammar ({nm}/{np} with fill/alignment/width/precision, both placeholders in one field, literals incl. digits). Oracle: reference counter (old/new start from the hunk header; '-' advances old, '+' new, ' ' both); the integers found in the gutter cells painted with the number styles must equal, row by row (unified) or as per-side sequences with each numbered row starting its own line (side-by-side), what the counter gives for the generated formats; the hunk-header row shows the new-file start and the section's path when the style asks for them. Non-trivial = >=2 hunks, a sub-hunk with unequal numbers of removed/added lines, and for side-by-side >=1 continuation row; distinct by hash of (input, argv).".to_string()
     }
     fn assumptions(&self) -> Vec<String> {
         vec![
